@@ -62,3 +62,14 @@ Example C10_ex_ignored_sub :
   validate ex10_cfg ex10_deny_all (ex10_req OpUpdate "status" (ex10_pod "b" []) (ex10_pod "a" [])) ex10_world
   = (shared_allowed, []).
 Proof. vm_compute. reflexivity. Qed.
+
+(** ---- side conditions on the constants regenerated from the source (Gen/Constants.v) ---- *)
+From PSA Require Import Proofs.Constants_table.
+From PSA Require Gen.Constants.
+From PSA Require Import Spec.P02.
+Theorem C10_ignored_subresources_are_source :
+  same_set Gen.Constants.gen_ignored_pod_subresources ignored_pod_subresources = true
+  /\ forallb (fun s => s_ignored_sub s) Gen.Constants.gen_ignored_pod_subresources = true
+  /\ List.length Gen.Constants.gen_ignored_pod_subresources = 8.
+Proof. exact ignored_subresources_are_source. Qed.
+Print Assumptions C10_ignored_subresources_are_source.
